@@ -159,7 +159,7 @@ def main(tier):
     prog = H.get_program()
     rng = H.rng(PROP)
     cfg = C.config_consts(prog)
-    D = 10 if tier == 'quick' else 20
+    D = 10 if tier == 'quick' else 32
     tasks = []
     EXTREME_L = (0, 1, 2, 6, D)
     for fn in FNS:
